@@ -32,7 +32,7 @@ CHECKS = {
          "DESIGN.md §4 C20"),
  "C18": ("exploration",
          "exhaustive input-domain enumeration under memory-error detectors (sub-process abort, valgrind, miri)",
-         "All values of u8/u16/i16 (and all 2^32 of u32/i32 in the thorough tier), a 2e5-pattern alphabet of u64, 627 strings, and every Vec<u8|u16|u32> of length 0..5 (6) over a 5-value boundary alphabet plus lengths 1000 and 1e6 are passed to the real get_sig and compared with an independent native-endian concatenation. Vector types run in supervised sub-processes so that a glibc abort is an observation; every vector is also rebuilt with spare capacity; the small sweep is repeated under valgrind memcheck and under cargo miri (both tiers; miri also checks allocation layouts on free) so that reads/frees of unowned memory fail loudly. ProbMinHash3aSha is driven with keys of every Sig type in all 24 insertion orders.",
+         "All values of u8/u16/i16 (and all 2^32 of u32/i32 in the thorough tier), a 2e5-pattern alphabet of u64, about 2800 strings (incl. byte order mark, zero-width spaces, line ends, combining accents), and every Vec<u8|u16|u32> of length 0..5 (6) over a 5-value boundary alphabet plus lengths 1000 and 1e6 are passed to the real get_sig and compared with an independent native-endian concatenation. Vector types run in supervised sub-processes so that a glibc abort is an observation; every vector is also rebuilt with spare capacity; the small sweep is repeated under valgrind memcheck and under cargo miri (both tiers; miri also checks allocation layouts on free) so that reads/frees of unowned memory fail loudly. ProbMinHash3aSha is driven with keys of every Sig type in all 24 insertion orders.",
          "memory safety is decided by the detectors on the explored values only; u64/String/Vec domains are boundary alphabets",
          "DESIGN.md §4 C18"),
  "C14": ("model_checking",
@@ -125,7 +125,7 @@ EXTRA = {
  "C14": "The slice-taking functions are also run on every pair of sub-slices of one buffer (aliased arguments), and all functions on sketches of 65535, 65536, 65537 and 2^24+3 positions.",
  "C15": "Beyond the closed spaces, every m in 9..300, 2^k-1..2^k+1 (k=9..17), 1000, 5000, 50000, 100003 (thorough: ~2^20, 3000001) gets one structured six-phase history with every step checked against an ordered multiset of slot minima, and m in {1,2,3,5,8} gets 70000 (updates, reset) cycles.",
  "C17": "Long runs under one patterned script: >= 70000 draws without reset and >= 66000 (draws, reset, m draws compared with a fresh instance) cycles for m in {1,2,3,5,255,256,257}; two full blocks for m in {65535,65536,65537,100003}.",
- "C18": "Vector lengths 255..257 and 65535..65537 are included.",
+ "C18": "Vector lengths 255..257 and 65535..65537 are included; strings also cover all sequences of <= 3 of 13 characters a normalising conversion would touch (byte order mark, zero-width / no-break space, line ends, combining accent, case, U+FFFD, U+10FFFF).",
  "C20": "Dump histories in one directory: all ordered pairs over a 288-tuple neighbour alphabet (fields a few ulp or a tiny absolute amount apart) that differ in one field, a fifth (all) of the others, all triples over 8 values of a; the reload returns the last tuple dumped.",
 }
 for _k, _v in EXTRA.items():
